@@ -14,7 +14,7 @@ class Show(ASTNode):
                  *args_, **kwargs):
         super().__init__(*args_, **kwargs)
 
-        if category == 'SLAVE HOSTS':
+        if category.upper() == 'SLAVE HOSTS':
             category = 'REPLICAS'
 
         self.category = category.upper()
